@@ -1,6 +1,6 @@
 """C01 -- the compiled model computes the same function as the source model (partial).
 The command streams of the output file are EXECUTED by the extracted Coq interpreter hw/NpuExec.v (decode ->
-register machine -> DMA / convolution / depthwise / pooling / elementwise (add, sub, mul, min, max) datapath, weight stream decoded by the
+register machine -> DMA / convolution / depthwise / pooling / elementwise (add, sub, mul, min, max) datapath, 8-bit table look-up, weight stream decoded by the
 reference-decoder model and un-reordered through the brick-traversal model, scale records read from the
 constants tensor) on random inputs, and the result is compared bit for bit with a transcription of the
 TFLite reference kernels evaluated on the SOURCE model (tools/refnet.py)."""
@@ -19,7 +19,7 @@ import vlib
 
 ELEM = {"int8": 1, "uint8": 1, "int16": 2, "int32": 4}
 FAMS = ["single:conv@8", "single:dw@8", "single:maxpool@8", "single:avgpool@8", "single:fc@8", "conv_chain", "single:transpose@8",
-        "single:add@8", "single:sub@8", "single:mul@8", "single:add_bcast@8", "single:mul_scalar@8", "single:concat@u8", "diamond", "siamese",
+        "single:add@8", "single:sub@8", "single:mul@8", "single:add_bcast@8", "single:mul_scalar@8", "single:concat@u8", "diamond", "siamese", "single:logistic@8", "single:tanh@8", "single:lrelu@8", "single:hswish@8",
         "single:transpose@8", "single:reshape@8", "single:pad@8", "single:slice@8", "single:concat@8", "conv_chain"]
 
 
@@ -91,7 +91,7 @@ def build_case(r, art, rng, max_macs):
         expect += [int(x) % 256 for x in v]
     from ethosu.vela.architecture_features import Accelerator, create_default_arch
     arch = create_default_arch(Accelerator(artefacts.job_accel(r["job"])))
-    flat = [int(arch.ncores), int(arch.ofm_ublock.depth), int(arch.ifm_ublock.depth), len(runs)]
+    flat = [int(arch.ncores), int(arch.ofm_ublock.depth), int(arch.ifm_ublock.depth), int(arch.shram_lut_address), len(runs)]
     for run in runs:
         flat += run
     flat.append(len(outs))
@@ -103,7 +103,7 @@ def build_case(r, art, rng, max_macs):
     flat.append(len(streams))
     for w in streams:
         flat += [len(w)] + w
-    tol = 1 if getattr(ref, "padded_avg", False) or getattr(ref, "requant_concat", False) else 0
+    tol = 1 if getattr(ref, "padded_avg", False) or getattr(ref, "requant_concat", False) or getattr(ref, "has_table_op", False) else 0
     signed = [ref.tens(si)["type"] == "int8" for si in ref.sg["outputs"] for _ in range(int(np.prod(ref.tens(si)["shape"])))]
     return flat, expect, tol, signed
 
@@ -112,7 +112,7 @@ def run(tier):
     res = vlib.Result("C01", tier, "other")
     b = vlib.build_property("C01")
     okx, xlog = vlib.build_extraction("npuExec")
-    n = 100 if tier == "quick" else 1400
+    n = 120 if tier == "quick" else 1400
     max_macs = 250000 if tier == "quick" else 1500000
     rng = random.Random("c01/%d" % vlib.seed())
     jobs = compiles.corpus_jobs(capture=False) + compiles.plan(FAMS, n, vlib.seed(), tag="c01", capture=False)
@@ -169,7 +169,8 @@ def run(tier):
                                  "tools/refnet.py: transcription of the TFLite reference kernels (conv, depthwise, fully connected, pooling, add, sub, mul, "
                                  "concatenation with scaling, pad, reshape, transpose, strided slice, relu)",
                                  "tools/tflsum.py"])
-    res.assumptions += ["sampled networks and inputs", "table-based, resize, softmax, mean and 16-bit operators are not executed (parameter-level checks in C09/C19/C10)",
+    res.assumptions += ["sampled networks and inputs", "8-bit table-based activations are executed only as the last operator of a network (one step allowed against the real "
+                        "function); resize, softmax, mean and 16-bit operators are not executed (parameter-level checks in C09/C19/C10)",
                         "the elementwise operand-scaling semantics of hw/NpuExec.v (input shift 20/15, 32-bit scaling of one operand with double "
                         "rounding, the other shifted one bit less) is a reading of the hardware interface calibrated against the reference kernels"]
     for r, diffs, nd, ne in bad:
